@@ -69,8 +69,9 @@ def parseRaw : List String → Option (List WireEntry)
 def pick (L : Array Entry) (ws : List String) : Option (List Entry) :=
   ws.mapM (fun w => do let i ← w.toNat?; L[i]?)
 
-def selectIdx (L : Array Entry) (from_ limit : Nat) : List Nat :=
-  (((List.range L.size).zip L.toList).filter (fun p => p.2.seq ≥ from_)).take limit |>.map (·.1)
+def selectIdx (L : Array Entry) (from_ limit cap : Nat) : List Nat :=
+  let sel := (((List.range L.size).zip L.toList).filter (fun p => p.2.seq ≥ from_)).take limit
+  (sel.take (capCount cap 0 0 (sel.map (·.2)))).map (·.1)
 
 def showIdx (idx : List Nat) : String := String.intercalate " " (toString idx.length :: idx.map toString)
 
@@ -138,12 +139,12 @@ def step (s : St) (ws : List String) : St × String :=
     | none => (s, "bad-op")
   | ["select", f] =>
     match f.toNat? with
-    | some from_ => (s, s!"sel {from_} {showIdx (selectIdx s.L from_ P.pollLimit)}")
+    | some from_ => (s, s!"sel {from_} {showIdx (selectIdx s.L from_ P.pollLimit P.pollBytes)}")
     | none => (s, "bad-op")
   | ["poll", rule] =>
     let from_ := if rule == "ack" then succ64 s.r.app.lastAck else s.r.app.expectedNext
-    let idx := selectIdx s.L from_ P.pollLimit
-    let (s', d) := receive s { entries := (select s.L.toList from_ P.pollLimit).map (toWire P) }
+    let idx := selectIdx s.L from_ P.pollLimit P.pollBytes
+    let (s', d) := receive s { entries := (select s.L.toList from_ P.pollLimit P.pollBytes).map (toWire P) }
     (s', s!"poll {from_} {showIdx idx} | {d} ; {counters s'.r}")
   | ["ack"] =>
     let r' := s.r.ack
